@@ -1,6 +1,15 @@
 #!/bin/sh
 # Offline build of the whole proof development (full .vo build, no -vos).
-set -e
-cd "$(dirname "$0")"
-./mkproject.sh
-timeout 3000 make -C coq -j16
+# -k: a property whose proofs do not build must not prevent the others from building;
+# every check re-runs make for its own targets and reports a broken proof itself.
+cd "$(dirname "$0")" || exit 1
+./mkproject.sh || exit 1
+timeout 3300 make -C coq -k -j16 >/var/tmp/pv_setup.log 2>&1
+rc=$?
+tail -5 /var/tmp/pv_setup.log
+# the base library must build; anything else is reported by the individual checks
+for f in Base/Prelude.vo Base/Bytes.vo Base/Dec.vo Base/Bits.vo; do
+  [ -f "coq/$f" ] || { echo "setup: coq/$f missing"; exit 1; }
+done
+echo "setup: make exit status $rc (non-zero is tolerated; see the individual checks)"
+exit 0
